@@ -1095,6 +1095,13 @@ class T:
         return r
 
     def __getitem__(self, key):
+        if isinstance(key, T) and key.dtype == "bool" and key.tlen is None and self.tlen is None:
+            # x[mask] (boolean mask over all dimensions): in the pointwise theory the selected elements are the
+            # arbitrary element itself, meaningful where the mask holds; remembered so that x[mask] = f(y[mask]) is
+            # the element-wise where(mask, f(y), x)
+            r = T(self.f, self.dtype, None, None, None, self.nan)
+            r.masked_by = key
+            return r
         es = self._elem_slice(key)
         if es is not None:
             return es
@@ -1134,6 +1141,16 @@ class T:
         return T(f(i), self.dtype, None, None, self.eshape, nan(i) if callable(nan) else nan)
 
     def __setitem__(self, key, value):
+        if isinstance(key, T) and key.dtype == "bool" and key.tlen is None and self.tlen is None:
+            v = value.f if isinstance(value, T) else num(value)
+            if isinstance(value, T) and value.tlen is not None:
+                raise Unsupported("masked assignment of a tensor with a time axis")
+            self.f = z3.If(key.f, coerce(v, self.dtype), self.f)
+            if self.nan is not None or (isinstance(value, T) and value.nan is not None):
+                vn = value.nan if isinstance(value, T) and value.nan is not None else z3.BoolVal(False)
+                sn = self.nan if self.nan is not None else z3.BoolVal(False)
+                self.nan = z3.If(key.f, vn, sn)
+            return
         k = self._norm_key(key)
         if self.tlen is None or self.taxis != "first":
             if (k is Ellipsis or _full_slice(k)) and self.tlen is None:
